@@ -573,6 +573,114 @@ theorem bbox_patch_set (rot : α → Dir α) (h0 : rot 0 = ⟨1, 0⟩) (ixmin ix
 
 end field
 
+/-! ### polygons with numpy integer vertex arrays -/
+
+section intpoly
+
+theorem wrap_of_inRange (d : IntDT) (hb : 1 ≤ d.bits) (n : Int) (h1 : d.lo ≤ n) (h2 : n ≤ d.hi) :
+    d.wrap n = n := by
+  unfold IntDT.wrap
+  have hp : (2 : Int) ^ d.bits = 2 * 2 ^ (d.bits - 1) := by
+    have : d.bits = (d.bits - 1) + 1 := by omega
+    conv_lhs => rw [this, pow_succ]
+    ring
+  have hpos : (0 : Int) < 2 ^ (d.bits - 1) := by positivity
+  have hlt : n - d.lo < 2 ^ d.bits := by
+    unfold IntDT.lo IntDT.hi at *
+    split_ifs at * <;> omega
+  rw [Int.emod_eq_of_lt (by omega) hlt]
+  ring
+
+variable {α : Type} [Field α]
+
+theorem subIntCoords_safe (d : IntDT) (hb : 1 ≤ d.bits) (o : OriginC α) (vs : List Int)
+    (h : coordSafe d o vs = true) :
+    subIntCoords d o vs = .ok (vs.map fun (v : Int) => ((v : α) - o.val)) := by
+  induction vs with
+  | nil => rfl
+  | cons v t ih =>
+    have ht : coordSafe d o t = true := by
+      cases o with
+      | other x => rfl
+      | pyInt n =>
+        simp only [coordSafe, Bool.and_eq_true, List.all_cons] at h ⊢
+        exact ⟨h.1, h.2.2⟩
+    have hv : subIntCoord d v o = .ok ((v : α) - o.val) := by
+      cases o with
+      | other x => rfl
+      | pyInt n =>
+        simp only [coordSafe, Bool.and_eq_true, List.all_cons, decide_eq_true_eq] at h
+        obtain ⟨⟨hn1, hn2⟩, ⟨hv1, hv2⟩, _⟩ := h
+        simp only [subIntCoord, npSubPyInt, OriginC.val]
+        rw [if_neg (by omega), wrap_of_inRange d hb _ hv1 hv2]
+        simp
+    simp only [subIntCoords, hv, ih ht, List.map_cons]
+
+/-- the clause at full strength: the `Polygon` patch of integer vertex arrays receives the
+vertices minus the origin. -/
+def polygon_int_full : Prop :=
+  ∀ (d : IntDT) (vs : List (Int × Int)) (ox oy : OriginC ℚ), 1 ≤ d.bits →
+    polygonArtistInt d vs ox oy =
+      .ok (.polygon (vs.map fun v => minusOrigin ⟨(v.1 : ℚ), (v.2 : ℚ)⟩ ⟨ox.val, oy.val⟩))
+
+/-- refuted by the current code: `uint8` vertices `(2, 3)` and the integer origin `(3, 0)`:
+`2 − 3` wraps to `255`. -/
+theorem polygon_int_full_refuted : ¬ polygon_int_full := by
+  intro h
+  have := h ⟨8, false⟩ [(2, 3)] (.pyInt 3) (.pyInt 0) (by decide)
+  simp only [polygonArtistInt, subIntCoords, subIntCoord, npSubPyInt, IntDT.wrap, IntDT.lo, IntDT.hi,
+    minusOrigin, OriginC.val, List.map_cons, List.map_nil] at this
+  norm_num at this
+
+/-- a second witness: `int16` vertices and the Python-int origin `40000` raise
+`OverflowError` instead of producing an artist. -/
+theorem polygon_int_overflow :
+    polygonArtistInt (α := ℚ) ⟨16, true⟩ [(2, 3)] (.pyInt 40000) (.pyInt 0) = .error "OverflowError" := by
+  simp only [polygonArtistInt, subIntCoords, subIntCoord, npSubPyInt, IntDT.lo, IntDT.hi, List.map_cons, List.map_nil]
+  norm_num
+
+/-- **outside the wrap-around class the patch receives `vertices − origin` exactly** — every
+integer dtype, every vertex list, every origin whose components either promote (Python float,
+numpy scalar/array) or are Python ints that fit the dtype together with all differences. -/
+theorem polygon_int_partial (d : IntDT) (hb : 1 ≤ d.bits) (vs : List (Int × Int)) (ox oy : OriginC α)
+    (hx : coordSafe d ox (vs.map Prod.fst) = true) (hy : coordSafe d oy (vs.map Prod.snd) = true) :
+    polygonArtistInt d vs ox oy =
+      .ok (.polygon (vs.map fun v => minusOrigin ⟨(v.1 : α), (v.2 : α)⟩ ⟨ox.val, oy.val⟩)) := by
+  unfold polygonArtistInt
+  rw [subIntCoords_safe d hb ox _ hx, subIntCoords_safe d hb oy _ hy]
+  simp only [List.map_map]
+  congr 2
+  induction vs with
+  | nil => rfl
+  | cons v t ih =>
+    simp only [List.map_cons, List.zipWith_cons_cons, Function.comp, minusOrigin] at ih ⊢
+    rw [ih
+      (by
+        cases ox with
+        | other x => rfl
+        | pyInt n =>
+          simp only [coordSafe, List.map_cons, Bool.and_eq_true, List.all_cons] at hx ⊢
+          exact ⟨hx.1, hx.2.2⟩)
+      (by
+        cases oy with
+        | other x => rfl
+        | pyInt n =>
+          simp only [coordSafe, List.map_cons, Bool.and_eq_true, List.all_cons] at hy ⊢
+          exact ⟨hy.1, hy.2.2⟩)]
+
+-- the predicate is satisfiable: int16 vertices, a fractional x origin and a small integer y origin
+example : coordSafe ⟨16, true⟩ (OriginC.other (1/2 : ℚ)) [2, 12, 7] = true ∧
+    coordSafe (α := ℚ) ⟨16, true⟩ (.pyInt 4) [3, 3, 13] = true := by decide
+example : polygonArtistInt (α := ℚ) ⟨16, true⟩ [(2, 3), (12, 3), (7, 13)] (.other (1/2)) (.pyInt 4)
+    = .ok (.polygon [⟨3/2, -1⟩, ⟨23/2, -1⟩, ⟨13/2, 9⟩]) := by
+  simp only [polygonArtistInt, subIntCoords, subIntCoord, npSubPyInt, IntDT.wrap, IntDT.lo, IntDT.hi,
+    List.map_cons, List.map_nil]
+  norm_num
+-- and fails on the finding's input
+example : coordSafe (α := ℚ) ⟨8, false⟩ (.pyInt 3) [2, 12, 7] = false := by decide
+
+end intpoly
+
 /-! ### keyword arguments -/
 
 section kwargs
